@@ -229,7 +229,14 @@ func (encryptor *HashQuery) replaceValuesWithHMACs(ctx context.Context, values [
 	newValues := make([]base.BoundValue, len(values))
 	copy(newValues, values)
 
+	// newValues shares the BoundValue objects with values, so a placeholder that occurs in several
+	// comparisons must be replaced only once, otherwise the HMAC of the HMAC would be sent to the database
+	processed := make(map[int]struct{}, len(placeholders))
 	for _, valueIndex := range placeholders {
+		if _, ok := processed[valueIndex]; ok {
+			continue
+		}
+		processed[valueIndex] = struct{}{}
 		var encryptionSetting config.ColumnEncryptionSetting = nil
 		if bindData != nil {
 			setting, ok := bindData[valueIndex]
